@@ -295,6 +295,13 @@ func checkFarSectors(c *vm.Ctx, r *vm.Rand, hi int) {
 					ok = false
 					return
 				}
+				// the handle's offsets against the header words (sector numbers here need more than 16 bits)
+				hdr := make([]byte, 4096)
+				s.ReadAt(hdr, 0)
+				if !offsetsMatchHeader(c, reg, hdr, h, "far/anvil/", h.ops[len(h.ops)-1]) {
+					ok = false
+					return
+				}
 				if e, _ := parseSparse(s, 0); e != nil && e[key] != nil && e[key].sector >= 65536 {
 					beyond = true
 				}
@@ -313,6 +320,11 @@ func checkFarSectors(c *vm.Ctx, r *vm.Rand, hi int) {
 				reg2, lerr := region.Load(f)
 				if lerr != nil {
 					c.Violation("far/reopen-error", lerr.Error(), h.wit())
+					ok = false
+					return
+				}
+				if o1, o2 := offsetsOf(reg), offsetsOf(reg2); o1 != nil && o2 != nil && *o1 != *o2 {
+					c.Violation("far/reopen/offsets-differ", "the offsets of a fresh Load differ from those in memory", h.wit())
 					ok = false
 					return
 				}
